@@ -173,6 +173,12 @@ func init() {
 			if r.Chance(25) {
 				o.zeof = true
 			}
+			if r.Chance(15) {
+				// WithTrustedCAR: the BlockReader is util.ReadNode without the hash check (the path
+				// carv1.ReadHeader + util.ReadNode loops take); truncation must still be loud
+				o.trusted = true
+				c.Count("archive:trusted-option")
+			}
 			emit := func(kind uint64, f []byte, expect Val) {
 				c02xScanCase(c, r, kind, o, f, nil, expect, len(blks) > 0)
 			}
@@ -565,6 +571,18 @@ func c02xVarint(c *Ctx) {
 		// SkipNext-only and mixed walks over the same prefixes
 		c02xSkipCases(c, r, payload, 0, lay, blks, orig, o, 2)
 		c02xSkipCases(c, r, v2file, v2base, lay, blks, orig, o, 2)
+		// the same prefixes without hash verification (WithTrustedCAR = the bare ReadHeader + ReadNode path)
+		ot := o
+		ot.trusted = true
+		for k := 0; k <= len(payload); k++ {
+			emitScan(0, ot, payload[:k], scanExpect(0, k, len(payload)))
+			c.Count("input:varint-prefix-trusted")
+		}
+		for k := 0; k <= len(v2file); k++ {
+			emitScan(0, ot, v2file[:k], scanExpect(v2base, k, len(v2file)))
+			c.Count("input:varint-prefix-trusted")
+		}
+		c02xSkipCases(c, r, v2file, v2base, lay, blks, orig, ot, 1)
 		// length prefix of section i replaced by an invalid varint (and by a valid prefix cut short by junk)
 		for i := range blks {
 			l := uint64(blks[i].Cid.ByteLen() + len(blks[i].Data))
